@@ -46,6 +46,13 @@ def install_hooks(ex, callback_rx=None):
 
     def on_end(ex, f, args):
         ex.events.append(('end', args[1]))
+        if f['name'].endswith('end_to_boundary'):
+            # reads made while rounding an error span up to a char boundary are not match-attempt consumption
+            ex.in_user_cb += 1
+
+            def post(_r):
+                ex.in_user_cb -= 1
+            return post
 
     ex.trace_hooks.append((RX_READ, on_read))
     ex.trace_hooks.append((RX_TRIVIA, on_trivia))
@@ -293,9 +300,21 @@ class StepResult:
         self.ignored_start_panics = 0
 
     def fail(self, ex, prop, what, cond_violated=None, detail=None, model=None):
+        if ex.acc.n('failures') >= 20:
+            return
         if model is None:
             model = ex.model_for(cond_violated if cond_violated is not None else True)
-        self.failures.append(dict(prop=prop, what=what, model=model, detail=detail))
+        ex.acc.add('failures', dict(prop=prop, what=what, model=model, detail=detail))
+
+    def collect(self, ex):
+        a = ex.acc
+        self.leaves = a.get('leaves', 0)
+        self.kinds = a.get('kinds', {})
+        self.failures = a.get('failures', [])
+        self.samples = a.get('samples', [])[:12]
+        self.max_depth_by_leaf = [a.get('max_leaf_depth', 0)]
+        self.reads_max = a.get('max_reads', 0)
+        self.ignored_start_panics = a.get('ignored_start_panics', 0)
 
 
 def explore_step(prog, d, tables, N, start, *, partial=False, props=None, is_release=False, budget=None,
@@ -314,7 +333,7 @@ def explore_step(prog, d, tables, N, start, *, partial=False, props=None, is_rel
 
     def prove(prop, what, claim, detail=None):
         """PC => claim ?  (claim: bool or z3)"""
-        if len(res.failures) >= max_failures:
+        if ex.acc.n('failures') >= max_failures:
             return
         neg = s_not(claim)
         if ex.check(neg):
@@ -440,7 +459,7 @@ def explore_step(prog, d, tables, N, start, *, partial=False, props=None, is_rel
                 examined = (max(loads) - t + 1) if loads else 0
                 if len(reads) > 3 * (examined + 1) + 3:
                     res.fail(ex, 'C20', f'{len(reads)} read operations for {examined} examined bytes')
-                res.reads_max = max(res.reads_max, len(reads))
+                ex.acc.maxi('max_reads', len(reads))
                 if kind != 'none' and not (partial and kind == 'none'):
                     x = max(loads) if loads else t - 1
                     # every byte from t up to x was examined, and x is the fatal byte or the one before it
@@ -498,30 +517,32 @@ def explore_step(prog, d, tables, N, start, *, partial=False, props=None, is_rel
         return (item[0], item[1] if item[0] == 'ok' else None, s, e, skips, ex.path_max_depth)
 
     def on_leaf(ex, leaf):
+        a = ex.acc
         if leaf[0] == 'ok' and leaf[1] == ('start-not-valid',):
-            res.ignored_start_panics += 1
+            a.inc('ignored_start_panics')
             return
-        res.leaves += 1
+        a.inc('leaves')
         if leaf[0] == 'ok':
             k = leaf[1][0] if not leaf[1][4] else 'skip+' + leaf[1][0]
-            res.kinds[k] = res.kinds.get(k, 0) + 1
-            res.max_depth_by_leaf.append(leaf[1][5])
-            if len(res.samples) < 3 or (k not in [x.get('kind') for x in res.samples] and len(res.samples) < 8):
+            a.count('kinds', k)
+            a.maxi('max_leaf_depth', leaf[1][5])
+            if ex.sample_this_leaf() and a.n('samples') < 8:
                 m = ex.model_for(True)
-                res.samples.append({'kind': k, 'input': bytes(m['bytes']).hex(), 'len': m['len'], 'start': start,
-                                    'result': [leaf[1][0], leaf[1][1], leaf[1][2], leaf[1][3]], 'skips': leaf[1][4]})
+                a.add('samples', {'kind': k, 'input': bytes(m['bytes']).hex(), 'len': m['len'], 'start': start,
+                                  'result': [leaf[1][0], leaf[1][1], leaf[1][2], leaf[1][3]], 'skips': leaf[1][4]})
         elif leaf[0] == 'panic':
-            res.kinds['panic'] = res.kinds.get('panic', 0) + 1
+            a.count('kinds', 'panic')
             prop = 'C05' if safe_build else 'C03'
             res.fail(ex, prop, 'lexer panicked: ' + leaf[1][:120])
         else:
             kind, msg, model = leaf[1]
-            res.kinds['ub:' + kind] = res.kinds.get('ub:' + kind, 0) + 1
+            a.count('kinds', 'ub:' + kind)
             prop = {'oob': 'C05', 'get_unchecked': 'C04' if is_str else 'C05', 'steps': 'C03',
                     'unreachable': 'C05', 'assume': 'C05'}.get(kind, 'C05')
             res.fail(ex, prop, msg, model=model)
 
     ex.explore(body, on_leaf)
+    res.collect(ex)
     res.stats = dict(ex.stats)
     res.fn_seen = set(ex.fn_seen)
     res.builtins = set(ex.builtins_used)
